@@ -124,6 +124,17 @@ impl Soundness {
             }
             combos = next;
         }
+        // subsumption: values of every other catalogue type are offered to a one-parameter
+        // function too; the host API decides whether they are admissible
+        if values.len() == 1 {
+            for other in CATALOGUE {
+                for v in other.values {
+                    if !values[0].contains(v) {
+                        combos.push(vec![*v]);
+                    }
+                }
+            }
+        }
         for combo in combos {
             let mut args = vec![];
             for text in &combo {
@@ -217,7 +228,7 @@ pub fn run(session: &Session, prop: &'static Soundness) -> i32 {
     for text in crate::props::c03::corpus() {
         cases.push(json!({"kind": "program", "text": text}));
     }
-    if session.tier == Tier::Thorough {
+    {
         for x in 0..CATALOGUE.len() {
             for y in 0..CATALOGUE.len() {
                 for op in 0..INFIX.len() {
@@ -233,12 +244,10 @@ pub fn run(session: &Session, prop: &'static Soundness) -> i32 {
     if !session.stopped() {
         session.run_enum(prop, cases);
     }
-    if !session.stopped() && session.tier == Tier::Quick {
-        session.run_tapes(prop, 60_000, 8, 0);
-    }
+
     let (rule, assumptions): (&str, &[&str]) = match prop.mode {
         Mode::Types => (
-            "the operator x operand-type matrix: every unary/postfix/statement template applied to a parameter of each of 60 catalogue types (exhaustive), every infix/assignment operator and two-operand template on pairs of catalogue types (seeded sample in quick, exhaustive in thorough); each function the checker accepts is called through the host API and in-language with every combination of the catalogue's values for its parameter types (every union member, empty arrays, exhausted iterators, cells); the documentation corpus is executed too. Oracle: the verif monitor reports every instruction result, argument binding, function return, the final result and every reachable cell with the static type the checker computed; the harness's own membership test (tag and contents, recursively) must hold. Non-trivial = an execution with at least one observation whose static type is a union, array, tuple, struct, function or mut; distinct by call.",
+            "the operator x operand-type matrix: every unary/postfix/statement template applied to a parameter of each of 60 catalogue types (exhaustive), every infix/assignment operator and two-operand template on all pairs of catalogue types (exhaustive); each function the checker accepts is called through the host API and in-language with every combination of the catalogue's values for its parameter types (every union member, empty arrays, exhausted iterators, cells); the documentation corpus is executed too. Oracle: the verif monitor reports every instruction result, argument binding, function return, the final result and every reachable cell with the static type the checker computed; the harness's own membership test (tag and contents, recursively) must hold. Non-trivial = an execution with at least one observation whose static type is a union, array, tuple, struct, function or mut; distinct by call.",
             &["instructions inside the placeholder-typed helper closures of @ ? ~ are not judged (their static types are not claims about user values)"],
         ),
         Mode::Panics => (
